@@ -13,7 +13,7 @@ import common as C  # noqa: E402
 MODULES = {
     "C01": ("p_content", "run"), "C16": ("p_content", "run"),
     "C10": ("p_packaging", "run"), "C11": ("p_packaging", "run"), "C12": ("p_packaging", "run"),
-    "C13": ("p_views", "run"), "C07": ("p_decoder", "run"), "C09": ("p_atomic", "run"), "C04": ("p_integrity", "run"), "C05": ("p_integrity", "run"), "C06": ("p_integrity", "run"),
+    "C13": ("p_views", "run"), "C14": ("p_layout", "run"), "C07": ("p_decoder", "run"), "C09": ("p_atomic", "run"), "C04": ("p_integrity", "run"), "C05": ("p_integrity", "run"), "C06": ("p_integrity", "run"),
     "C02": ("p_entries", "run"), "C08": ("p_pipeline", "run"), "C03": ("p_order", "run"), "C15": ("p_order", "run"),
 }
 
